@@ -488,6 +488,65 @@ def judgeExtent (ends : List Nat) (al : AnsLine) : Option String :=
     | _ => none
   | _ => none
 
+/-! #### completeness: an unanswered lookup must be justified by the file (no spurious miss)
+
+Object files: every address the file prescribes an entry at (named or unnamed candidate, end of a text section, end of
+a sized function symbol of the symbol table, FDE end); a miss at `a` is justified iff no enumerated symbol starts
+at or before `a`, or some prescribed entry lies in `(g, a]` (`g` = greatest enumerated start `≤ a`: that entry is then
+an end marker or an unreadable name), or no prescribed entry lies above `a` (`g` is the last entry: its end is unknown). -/
+
+def objEntryAddrs (o : ObjOps) : List Nat :=
+  let base := o.base
+  let endOf (a size : Nat) : Option Nat := if a + size < U64 then relOf base (a + size) else none
+  (objCandidates o).map (·.1)
+  ++ (o.secs.filter fun s => s.1 = "t").filterMap (fun s => endOf s.2.1 s.2.2.1)
+  ++ (o.syms.filter fun s => !s.dyn && (s.typ = "f" || s.typ = "i") && s.value ≠ 0 && s.size ≠ 0).filterMap
+      (fun s => endOf s.value s.size)
+  -- FDE-REBASE: where the code puts them
+  ++ o.fdes.map (fun f => (f.1 + f.2) % U32)
+
+def missJustifiedObj (addrs : List Nat) (g : Option Nat) (a : Nat) : Bool :=
+  match g with
+  | none => true
+  | some g => addrs.any (fun m => g < m && m ≤ a) || !(addrs.any fun m => a < m)
+
+/-- Breakpad: the records at the greatest record address `≤ a`; a miss is justified iff there is none, or one of
+them is unreadable, or one is a FUNC whose range ends at or before `a` -/
+def missJustifiedBp (rest : List String) (a : Nat) : Bool :=
+  let recs : List (Nat × Option Nat × Bool) := rest.filterMap fun l =>
+    match words l with
+    | ["func", x, sz, n] => some (nat! x, some (nat! sz), n != "!")
+    | ["pub", x, n] => some (nat! x, none, n != "!")
+    | _ => none
+  let g := recs.foldl (fun acc r => if r.1 ≤ a then (match acc with | none => some r.1 | some m => some (max m r.1)) else acc) none
+  match g with
+  | none => true
+  | some g => (recs.filter fun r => r.1 = g).any fun r =>
+      !r.2.2 || (match r.2.1 with | some sz => g + sz ≤ a | none => false)
+
+/-- jitdump: a miss is justified iff the relative address is a code byte of no record -/
+def missJustifiedJit (jrecs : List (Nat × Nat × String)) (a : Nat) : Bool :=
+  !(jrecs.any fun r => r.1 ≤ a && a < r.1 + r.2.1)
+
+def judgeComplete (kind : String) (fixtureObj : Bool) (objAddrs : List Nat) (rest : List String)
+    (jrecs : List (Nat × Nat × String)) (en : List EnumItem) (q : Query) (al : AnsLine) : Option String :=
+  match al.answers, q.claim with
+  | [one], .rel a =>
+    if parseAns one ≠ some .miss then none else
+    let bad : Bool :=
+      if kind = "obj" then !(missJustifiedObj objAddrs (greatestLE en a) a)
+      else if kind = "bp" then !(missJustifiedBp rest a)
+      else if kind = "jit" then !(missJustifiedJit jrecs a)
+      else if fixtureObj then
+        -- fixtures (object kinds): a lookup exactly at an enumerated start that is not the last one
+        (match al.nb, al.nx with
+         | some (e :: _), some _ => e.addr = a
+         | _, _ => false)
+      else false
+    if bad then some s!"[complete] lookup {q.form} {q.addr} (relative address {a}) answered nothing, the file prescribes a symbol there"
+    else none
+  | _, _ => none
+
 /-- which relative address a lookup address stands for, from the description (generated kinds); fixtures:
 the claim on the query line, computed by the harness from the file's program headers -/
 def objClaim (o : ObjOps) (q : Query) : Claim :=
@@ -557,9 +616,12 @@ def judge (ops impl : List String) : Bool × String :=
     match judgeEnum kind o rest en with
     | some why => (false, why)
     | none =>
+    let objAddrs := if kind = "obj" then objEntryAddrs o else []
+    let fixtureObj := fixture && ["elf", "macho", "pe", "dsym"].contains (kw.getD 2 "")
     match (qs.zip als).findSome? (fun p => ((judgeQuery checkNames en p.1 p.2).orElse fun _ => judgeExtent ends p.2).orElse fun _ =>
-        ((if kind = "bp" ∨ (fixture ∧ kw.getD 2 "" = "pdb") then none else judgeOverlap en p.2).orElse fun _ =>
-          judgeRecord kind bpRecs jitRecs p.2)) with
+        (((if kind = "bp" ∨ (fixture ∧ kw.getD 2 "" = "pdb") then none else judgeOverlap en p.2).orElse fun _ =>
+          judgeRecord kind bpRecs jitRecs p.2).orElse fun _ =>
+          judgeComplete kind fixtureObj objAddrs rest jitRecs en p.1 p.2)) with
     | some why => (false, why)
     | none =>
       -- address forms: all lookups that stand for the same relative address have the same answer
